@@ -131,7 +131,7 @@ def rule_order_adaptors(ctx):
         ctx.report("order:positive-control", "rules/positive/order.rs", f"the positive control yields {got} sites instead of 5", {})
 
 
-CUT_METHODS = {"map_while", "take_while", "skip_while", "step_by", "take", "skip", "fuse"}
+CUT_METHODS = {"map_while", "take_while", "skip_while", "step_by", "take", "skip"}
 # truncating adaptors that are part of the documented behaviour (one reason each)
 CUT_ALLOWED = {}
 
@@ -143,7 +143,8 @@ def _cut_sites(files):
             if fn.block is None:
                 continue
             for mc, _ in A.find(fn.block, "Expr::MethodCall"):
-                if mc["method"]["sym"] in CUT_METHODS:
+                # (`Option::take()` / `mem::take` have no argument; the iterator adaptors all take one)
+                if mc["method"]["sym"] in CUT_METHODS and len(mc["args"]) >= 1:
                     out.append((f, fn, mc))
     return out
 
